@@ -34,6 +34,9 @@ Definition deployed_params : lparams :=
 Lemma deployed_params_ok : params_ok deployed_params = true.
 Proof. vm_compute. reflexivity. Qed.
 
+Lemma gen_layer_first : layer_first (p_by_layer gen_params) = true.
+Proof. vm_compute. reflexivity. Qed.
+
 Fixpoint sassoc (n : string) (l : list (string * string)) : option string :=
   match l with
   | [] => None
